@@ -256,6 +256,9 @@ func qualifiedFnName(fn *ssa.Function) string {
 		return ""
 	}
 	q := func(p *types.Package) string { return p.Name() }
+	if fn.Pkg != nil && fn.Pkg.Pkg.Path() == hessianPath {
+		return fnName(fn)
+	}
 	if recv := fn.Signature.Recv(); recv != nil {
 		return "(" + types.TypeString(recv.Type(), q) + ")." + fn.Name()
 	}
@@ -881,6 +884,12 @@ func (f *Flow) run() {
 			// a condition already decided on this path?
 			te, tok := f.refine(env, c, true)
 			fe, fok := f.refine(env, c, false)
+			// `a || b` / `a && b` used as a value (switch case lists, assigned
+			// booleans) is a φ of booleans in this block: refine per incoming edge
+			if phi, isPhi := t.Cond.(*ssa.Phi); isPhi && phi.Block() == b {
+				te, tok = f.refinePhiCond(b, phi, env, true)
+				fe, fok = f.refinePhiCond(b, phi, env, false)
+			}
 			if v, ok := env[c.key]; ok && len(v) == 1 && v[0].Lo.Cmp(v[0].Hi) == 0 {
 				if v[0].Lo.Sign() == 0 {
 					tok = false
@@ -948,6 +957,44 @@ func (f *Flow) run() {
 			}
 		}
 	}
+}
+
+// refinePhiCond: the environment on the edge where the boolean φ (defined in
+// block b) has the given truth value: the join over incoming edges of that
+// edge's environment refined by "operand == truth".
+func (f *Flow) refinePhiCond(b *ssa.BasicBlock, phi *ssa.Phi, env Env, truth bool) (Env, bool) {
+	var res Env
+	for i, p := range b.Preds {
+		ee := f.edges[edgeKey{p.Index, b.Index}]
+		if ee == nil {
+			continue
+		}
+		re, ok := f.refine(ee, f.term(phi.Edges[i]), truth)
+		if !ok {
+			continue
+		}
+		if res == nil {
+			res = re.clone()
+		} else {
+			res = joinEnv(res, re)
+		}
+	}
+	if res == nil {
+		return env, false
+	}
+	// keep this block's own φ assignments
+	for _, in := range b.Instrs {
+		p2, ok := in.(*ssa.Phi)
+		if !ok {
+			break
+		}
+		k := f.term(p2).key
+		if v, ok := env[k]; ok {
+			res[k] = v
+			res[k+"#phi"] = v
+		}
+	}
+	return res, true
 }
 
 // Reachable reports whether the block is reachable under the analysed facts.
